@@ -186,13 +186,13 @@ Definition add_ok (i : add_in) (o : c08_out) : bool :=
   steps_ok g (thash t) 0 0 [] cds (fst o) (snd o).
 Definition add_nonce_ok (i : add_in) (o : c08_out) : bool := nonce_ok (fst i) [] (snd o).
 
-(* known-finding class 1 (F14): during some Add a sequenced message advanced the expected nonce of its sender
-   without being placed in the report (it was flagged too costly, or the size/gas fallback dropped it) *)
+(* known-finding class 1 (F14, what is left after repair F14a): during some Add the size / gas fallback dropped a
+   ready sequenced message, whose nonce had already been counted *)
 Fixpoint known_run (g : cfg) (h : N -> N -> N) (st : bstate) (cds : list cdata) : bool :=
   match cds with
   | [] => false
   | cd :: cds' =>
-      nonce_leak h (g_zero g) lhash (codec_size g) (tgas g) (g_nonces g) (g_max_size g) (g_max_gas g) st cd ||
+      fallback_drop h (g_zero g) lhash (codec_size g) (tgas g) (g_nonces g) (g_max_size g) (g_max_gas g) st cd ||
       match add h (g_zero g) lhash (codec_size g) (tgas g) (g_nonces g) (g_max_size g) (g_max_gas g) st cd with
       | Ok (st1, _) => known_run g h st1 cds'
       | _ => false
